@@ -287,6 +287,26 @@ def check(run):
         run.undecided('R11.resample', rp, wh[0].test, 'the resampling test is not in a form this rule reads')
     else:
         run.check(len(wh) == 1 and pol is True, 'R11.resample', rp, 'while (g1 == 0).all()', 'the identity string is rejected and g1 resampled (the loop must run exactly while the first string is all zero)')
+    # the batched sampler of the port draws L strings at once: every ROW that is all zero must be redrawn, not only a batch in
+    # which all rows vanish (a test that reduces over the whole batch lets single identity strings through)
+    from ..names import batched_resample_keeps_going
+    trp = repo.func(K.TC_U, 'random_pair')
+    twh = [(st, ctx) for st, ctx in walk(trp.node) if isinstance(st, ast.While)]
+    tfirst = None
+    for st, _ in walk(trp.node):
+        if isinstance(st, ast.Assign) and isinstance(st.targets[0], ast.Tuple) and isinstance(st.value, ast.Tuple) and st.targets[0].elts \
+                and isinstance(st.targets[0].elts[0], ast.Name) and 'randint' in norm(st.value.elts[0]):
+            tfirst = st.targets[0].elts[0].id
+    if len(twh) == 1 and tfirst:
+        keeps = batched_resample_keeps_going(trp, twh[0][0].test, tfirst)
+        if keeps is None:
+            run.undecided('R11.resample', trp, twh[0][0].test, 'the batched resampling test is not in a form this rule reads')
+        else:
+            run.check(keeps, 'R11.resample', trp, twh[0][0].test, 'the strings are drawn in a batch of L rows: the loop stops as soon as ONE row is '
+                      'non-zero, so a row that is still the identity string is kept (its partner cannot be made to anticommute with it, '
+                      'and random_pauli returns a map that is not invertible)')
+    else:
+        run.undecided('R11.resample', trp, 'random_pair', 'batched draw / resampling loop of the port not found')
     fr = [st for st, _ in walk(rp.node) if isinstance(st, ast.Assign) and norm(st.value).replace(' ', '') == 'front(%s)' % first]
     run.check(len(fr) == 1, 'R11.resample', rp, 'i = front(g1)', 'the flip acts at the first nontrivial site of g1')
     ft = repo.func(K.PY_U, 'front')
